@@ -394,7 +394,7 @@ def check_lattice(case):
 
 
 SUBS = [
-    Sub("group", group_case, check_group, quick=320, thorough=8000, budget_quick=200, budget_thorough=900),
-    Sub("tensor", tensor_case_st(), check_tensor, quick=320, thorough=8000, budget_quick=200, budget_thorough=900),
-    Sub("lattice", lattice_case, check_lattice, quick=160, thorough=3200, budget_quick=150, budget_thorough=600),
+    Sub("group", group_case, check_group, quick=320, thorough=4000, budget_quick=200, budget_thorough=900),
+    Sub("tensor", tensor_case_st(), check_tensor, quick=320, thorough=5000, budget_quick=200, budget_thorough=900),
+    Sub("lattice", lattice_case, check_lattice, quick=160, thorough=1600, budget_quick=150, budget_thorough=600),
 ]
